@@ -138,7 +138,7 @@ def join(rng, items):
 
 
 def experiment(rng, base_dir, n_inst=None, n_beads=None, n_samples=None, units_pool=UNITS, float_frac=0.3,
-               npop=4, fractions=(0.3, 0.5, 0.85, 1.0, 0.0, 1), nfl=None, force_float_first=False, zero_fraction_first=False, permute_columns=0.3, big_first=False):
+               npop=4, fractions=(0.3, 0.5, 0.85, 1.0, 0.0, 1), nfl=None, force_float_first=False, zero_fraction_first=False, permute_columns=0.3, big_first=False, id_style='plain'):
     """Writes FCS files under base_dir and returns (instruments_df, beads_df, samples_df, info)."""
     os.makedirs(base_dir, exist_ok=True)
     n_inst = n_inst or int(rng.integers(1, 4))
@@ -147,13 +147,16 @@ def experiment(rng, base_dir, n_inst=None, n_beads=None, n_samples=None, units_p
     itab = pd.DataFrame([{'ID': it['ID'], 'Forward Scatter Channel': it['fsc'], 'Side Scatter Channel': it['ssc'],
                           'Fluorescence Channels': join(rng, it['fl']), 'Time Channel': it['time'], 'Comment': 'c%d' % i}
                          for i, it in enumerate(insts)]).set_index('ID')
+    # row identifiers as users write them: plain (S0, B1) or with dots, blanks and signs (they also name the figure files)
+    SID = (lambda k: 'S%d' % k) if id_style == 'plain' else (lambda k: ['IPTG_0.%d' % (5 * (k + 1)), 'strain A #%d' % k, 'S%d.fcs' % k, 'x-%d.25' % k][k % 4])
+    BID = (lambda b: 'B%d' % b) if id_style == 'plain' else (lambda b: ['B2024.%d' % (b + 1), 'beads lot %d' % b][b % 2])
     n_beads = int(rng.integers(0, 3)) if n_beads is None else n_beads
     brow = []
     for b in range(n_beads):
         it = insts[int(rng.integers(n_inst))]
         fn = 'beads_%d.fcs' % b
         beads_file(rng, it, os.path.join(base_dir, fn), npop=npop)
-        row = {'ID': 'B%d' % b, 'Instrument ID': it['ID'], 'File Path': fn,
+        row = {'ID': BID(b), 'Instrument ID': it['ID'], 'File Path': fn,
                'Gate Fraction': float(rng.choice([0.3, 0.5])), 'Clustering Channels': it['fl'][0], 'Lot': 'AF%02d' % b}
         for ch in allfl:
             row[ch + ' MEF Values'] = None
@@ -177,12 +180,12 @@ def experiment(rng, base_dir, n_inst=None, n_beads=None, n_samples=None, units_p
         wt = rng.random() < 0.7
         if k == 0 and zero_fraction_first:
             ti, wt = 'full', True           # a row that keeps no events, on a file with a time channel and a time step
-        info['sample_specs']['S%d' % k] = sample_file(rng, it, os.path.join(base_dir, fn), with_time=wt, time_info=ti,
+        info['sample_specs'][SID(k)] = sample_file(rng, it, os.path.join(base_dir, fn), with_time=wt, time_info=ti,
                                                       n=140001 if (big_first and k == 0) else None,
                                                       floatdata=('D' if (rng.random() < 0.4 or (force_float_first == 'D' and k == 0))
                                                                  else True) if isf else False,
                                                       col_perm=(lambda D_: rng.permutation(D_)) if rng.random() < permute_columns else None)
-        row = {'ID': 'S%d' % k, 'Instrument ID': it['ID'], 'Beads ID': None, 'File Path': fn,
+        row = {'ID': SID(k), 'Instrument ID': it['ID'], 'Beads ID': None, 'File Path': fn,
                'Gate Fraction': 0 if (k == 0 and zero_fraction_first) else fractions[int(rng.integers(len(fractions)))],
                'Strain': 'strain %d' % k}
         for ch in allfl:
